@@ -192,7 +192,7 @@ PATHS = [
 ]
 for name, fns, tier in PATHS:
     nc = 3 if '3c' in name else 2
-    ob(f'llfree::{name}', ['C09', 'C13', 'C15', 'C02', 'C04'], fns, tier=tier, kind='config-bounded',
+    ob(f'llfree::{name}', ['C09', 'C13', 'C15', 'C02', 'C04'] + (['C11'] if 'get_local' in name else []) + (['C10'] if name in ('l2_get_at_2c', 'l2_get_targeted_2c', 'l2_steal_global_at_2c') else []), fns, tier=tier, kind='config-bounded',
        bound=L2B % (nc - 1, ', last class WITHOUT slots' if '3c' in name else '') + '; every order, class, slot choice' + ('; every target block' if '_at' in name or 'targeted' in name else ''),
        assumes=G_ASSUMES, timeout=1500, cover=False)
 ob('trees::l1b_search_best_result_n3', ['C09', 'C13', 'C16'], ['trees::Trees::search_best'], kind='config-bounded', tier='thorough',
